@@ -3,6 +3,7 @@
 package pipeline
 
 import (
+	"github.com/buildkite/go-pipeline/internal/env"
 	"github.com/buildkite/go-pipeline/ordered"
 	"github.com/buildkite/interpolate"
 )
@@ -70,4 +71,10 @@ func VerifStepFromMap(o *ordered.MapSA) (Step, error) {
 // VerifUnmarshalStep exposes unmarshalStep.
 func VerifUnmarshalStep(o any) (Step, error) {
 	return unmarshalStep(o)
+}
+
+// VerifNewEnv builds the package's own environment implementation
+// (internal/env) with the given case sensitivity and contents.
+func VerifNewEnv(caseSensitive bool, m map[string]string) InterpolationEnv {
+	return env.New(env.CaseSensitive(caseSensitive), env.FromMap(m))
 }
